@@ -11,6 +11,49 @@ from harness import layerb
 from harness.common import SEED, Check, MachineryError, run_tlaps, run_tlc
 
 
+def long_histories(chk, counts):
+    """LONG histories (code -> spec).  The content terms of the model double in size with every update, so TLC
+    cannot enumerate behaviours with dozens of updates; the trace specification has no such limit because it binds
+    digests.  A mineral is updated until it holds exactly K snapshots (counts at and around powers of two, where
+    chunked writers have their boundaries), saved under a postfix and as a whole file, and recovered through both
+    loaders; the recorded calls are validated by MineralTrace.tla (RoundTrip, archive contents, append-only)."""
+    from harness.common import scratch
+
+    par = dict(M=125, chi=3, asm=[0], phiOl=10, x=[5, 0])
+    for K in counts:
+        with scratch() as d:
+            w = layerb.World(d, dt=0.02)
+            acts = [dict(a="Create", m="a", c=dict(phase=0, fabric=0, regime=4, n=2), seed=7, tex="random"),
+                    dict(a="Create", m="b", c=dict(phase=1, fabric=5, regime=4, n=3), seed=7, tex="random")]
+            acts += [dict(a="UpdateOk", m="a", fl="ss_xz", par=par, cb=layerb.NOCB) for _ in range(K - 1)]
+            acts += [dict(a="SavePostfix", m="a", f="f1", pf="ol_1"), dict(a="SaveWholeFile", m="a", f="f2"),
+                     dict(a="FromFile", m="d", f="f1", k="ol_1"), dict(a="Load", m="b", f="f2", k="none")]
+            events = []
+            for act in acts:
+                lens_before = {name: len(m.orientations) for name, m in w.minerals.items()}
+                err = w.do(act)
+                ev = w.event(K, act, err, lens_before)
+                if act["a"] not in ("SavePostfix", "SaveWholeFile", "FromFile", "Load"):
+                    ev["disk"] = {}          # the archive does not exist yet
+                events.append(ev)
+                chk.count(("long", K, len(events)))
+                if err != "None":
+                    break
+            rejects, tr = layerb.validate_trace(events, d)
+        chk.add_tlc(f"MineralTrace(long history, {K} snapshots)", tr, f"{len(events)} recorded calls")
+        chk.cov["traces_validated_against_impl"] += 1
+        last = events[-1]
+        if last["exc"] != "None":
+            chk.violation(dict(level="trace", clause="persistence-call-raised", ev=last["ev"], snapshots=K),
+                          f"{last['ev']} raised {w.last_exc!r} for a valid mineral holding {K} snapshots", dict(kind="long-history", K=K, event={k: v for k, v in last.items() if k != 'obs'}))
+        for tid, line, clause in rejects:
+            if clause.startswith(layerb.TRACE_CLAUSES["C17"]):
+                chk.violation(dict(level="trace", clause=clause, ev=events[line - 1]["ev"], snapshots=K),
+                              f"trace spec rejected call {line} ({events[line - 1]['ev']}) of the history with {K} snapshots: {clause}", dict(kind="long-history", K=K))
+            else:
+                chk.skip("foreign-reject-" + clause)
+
+
 def main(tier):
     chk = Check("C17", tier)
     quick = tier != "thorough"
@@ -45,6 +88,7 @@ def main(tier):
         raise MachineryError(f"only {len(enum2)} save-recover-save-recover behaviours")
     behs = behs + enum + enum2
     events, comp = layerb.run_behaviours(chk, "C17", behs, fcheck=False)
+    long_histories(chk, (64, 33) if quick else (64, 128, 127, 65, 100))
     acts = {}
     for e in events:
         acts[e["ev"]] = acts.get(e["ev"], 0) + 1
